@@ -14,6 +14,7 @@ import (
 	"mime"
 	"net/http"
 	"net/http/httptest"
+	"runtime/debug"
 	"sort"
 	"strings"
 
@@ -30,7 +31,7 @@ func init() {
 	mon.Register(&mon.Property{
 		ID:    "C19",
 		Level: "exploration",
-		Rule: "seeded Swagger 2.0 descriptions (base path, global and per-operation consumes/produces over 9 lower-case media types, 0-4 security definitions, global/per-operation/cleared security with 1-2 scheme alternatives and anonymous, 0-7 operations over 7 methods) loaded with loads.Analyzed; " +
+		Rule: "seeded Swagger 2.0 descriptions (base path, global and per-operation consumes/produces over 9 lower-case media types, 0-4 security definitions, global/per-operation/cleared security with 1-2 scheme alternatives and anonymous, 0-6 operations over 7 methods) loaded with loads.Analyzed; " +
 			"per description and JSON-defaults mode the registration sets: exact, every single omission, single additions per category (fresh media type, fresh/other-method/path-case operation, fresh/case-variant scheme), case variants of media types and methods, duplicates, random multi-category deltas; " +
 			"oracle = per-category set comparison computed from the generated description; every exactly registered, validated API is served through Context.APIHandler with >= 3 well-formed requests per operation (each consumes/produces type, charset parameter, upper-case media type, Accept forms, scripted 'does not apply' authenticators) using tagged stub consumers/producers/authenticators. " +
 			"non-trivial = (description, registration set) with a non-empty delta, distinct by (description hash, delta); and (description, mode, operation, request shape) served by a validated API whose description names >= 2 media types",
@@ -1382,6 +1383,8 @@ func variants(r *rand.Rand, d *Desc, nmulti int) []Reg {
 }
 
 func run(m *mon.M) {
+	// loading a description allocates heavily and the live heap is tiny: collect less often
+	debug.SetGCPercent(800)
 	r := m.Rand("descriptions")
 	n := m.N(700, 9000)
 	for i := 0; i < n; i++ {
